@@ -179,6 +179,19 @@ theorem steps_nestedReturn (g : Globals) (e : Expr) (s : St) : Steps s (nestedRe
   · rw [h]
     exact (h1.toSteps.tail (Step.e (EStep.emit _ _ rfl rfl rfl (by intro v hv; simp [Instr.usesValue] at hv)))).tail (Step.setReturn _)
 
+theorem steps_loopWrap (k : Name → Name → Bool → Bool → Bool → St → St × Bool)
+    (hk : ∀ lb le rc bc cc s, Steps s (k lb le rc bc cc s).1) (s : St) : Steps s (loopWrap k s) := by
+  unfold loopWrap
+  dsimp only
+  have h1 := steps_loopPrologue s
+  generalize loopPrologue s = p at h1
+  obtain ⟨lb, le, s1⟩ := p
+  dsimp only at h1 ⊢
+  have h2 := h1.trans (hk lb le false false false s1)
+  generalize k lb le false false false s1 = q at h2
+  obtain ⟨s2, r⟩ := q
+  exact h2.trans (steps_loopEpilogue r lb le s2)
+
 mutual
 theorem steps_ifCondition (g : Globals) : ∀ (i : IfStmt) (le : Option Name) (ll : Option (Name × Name)) (s : St),
     Steps s (ifCondition g i le ll s)
@@ -227,7 +240,7 @@ theorem steps_ifBody (g : Globals) : ∀ (l : List IfBodyStmt) (lEnd : Name) (ll
     | bind b => exact (h0.trans (esteps_binding g b s0).toSteps).trans (steps_ifBody g tl lEnd ll rc _)
     | call c => exact (h0.trans (esteps_callStmt g c s0).toSteps).trans (steps_ifBody g tl lEnd ll rc _)
     | ifS i => exact (h0.trans (steps_ifCondition g i (some lEnd) ll s0)).trans (steps_ifBody g tl lEnd ll rc _)
-    | loop b => exact (h0.trans (steps_loopStmt g b s0)).trans (steps_ifBody g tl lEnd ll rc _)
+    | loop b => exact (h0.trans (steps_loopWrap _ (steps_loopBody g b) s0)).trans (steps_ifBody g tl lEnd ll rc _)
     | ret e =>
       dsimp only
       have h1 := h0.trans (steps_nestedReturn g e s0)
@@ -247,7 +260,7 @@ theorem steps_ifLoopBody (g : Globals) : ∀ (l : List IfLoopStmt) (lEnd lb le :
     | bind b => exact (h0.trans (esteps_binding g b s0).toSteps).trans (steps_ifLoopBody g tl lEnd lb le rc bc cc _)
     | call c => exact (h0.trans (esteps_callStmt g c s0).toSteps).trans (steps_ifLoopBody g tl lEnd lb le rc bc cc _)
     | ifS i => exact (h0.trans (steps_ifCondition g i (some lEnd) (some (lb, le)) s0)).trans (steps_ifLoopBody g tl lEnd lb le rc bc cc _)
-    | loop b => exact (h0.trans (steps_loopStmt g b s0)).trans (steps_ifLoopBody g tl lEnd lb le rc bc cc _)
+    | loop b => exact (h0.trans (steps_loopWrap _ (steps_loopBody g b) s0)).trans (steps_ifLoopBody g tl lEnd lb le rc bc cc _)
     | ret e =>
       dsimp only
       have h1 := h0.trans (steps_nestedReturn g e s0)
@@ -256,18 +269,6 @@ theorem steps_ifLoopBody (g : Globals) : ∀ (l : List IfLoopStmt) (lEnd lb le :
       exact h1.trans (steps_ifLoopBody g tl lEnd lb le (rc || r) bc cc s1)
     | cont => exact (h0.tail (Step.ctl _ _ rfl rfl rfl)).trans (steps_ifLoopBody g tl lEnd lb le rc bc true _)
     | brk => exact (h0.tail (Step.ctl _ _ rfl rfl rfl)).trans (steps_ifLoopBody g tl lEnd lb le rc true cc _)
-theorem steps_loopStmt (g : Globals) : ∀ (body : List LoopStmt) (s : St), Steps s (loopStmt g body s)
-  | body, s => by
-    unfold loopStmt
-    dsimp only
-    have h1 := steps_loopPrologue s
-    generalize loopPrologue s = p at h1
-    obtain ⟨lb, le, s1⟩ := p
-    dsimp only at h1 ⊢
-    have h2 := h1.trans (steps_loopBody g body lb le false false false s1)
-    generalize loopBody g body lb le false false false s1 = q at h2
-    obtain ⟨s2, r⟩ := q
-    exact h2.trans (steps_loopEpilogue r lb le s2)
 theorem steps_loopBody (g : Globals) : ∀ (l : List LoopStmt) (lb le : Name) (rc bc cc : Bool) (s : St),
     Steps s (loopBody g l lb le rc bc cc s).1
   | [], _, _, _, _, _, s => by unfold loopBody; exact Steps.refl _
@@ -281,7 +282,7 @@ theorem steps_loopBody (g : Globals) : ∀ (l : List LoopStmt) (lb le : Name) (r
     | bind b => exact (h0.trans (esteps_binding g b s0).toSteps).trans (steps_loopBody g tl lb le rc bc cc _)
     | call c => exact (h0.trans (esteps_callStmt g c s0).toSteps).trans (steps_loopBody g tl lb le rc bc cc _)
     | ifS i => exact (h0.trans (steps_ifCondition g i none (some (lb, le)) s0)).trans (steps_loopBody g tl lb le rc bc cc _)
-    | loop b => exact (h0.trans (steps_loopStmt g b s0)).trans (steps_loopBody g tl lb le rc bc cc _)
+    | loop b => exact (h0.trans (steps_loopWrap _ (steps_loopBody g b) s0)).trans (steps_loopBody g tl lb le rc bc cc _)
     | ret e =>
       dsimp only
       have h1 := h0.trans (steps_nestedReturn g e s0)
@@ -345,7 +346,7 @@ theorem steps_bodyStmts (g : Globals) (resTy : Ty) : ∀ (l : List BodyStmt) (rc
     | bind b => exact (h0.trans (esteps_binding g b s0).toSteps).trans (steps_bodyStmts g resTy tl rc _)
     | call c => exact (h0.trans (esteps_callStmt g c s0).toSteps).trans (steps_bodyStmts g resTy tl rc _)
     | ifS i => exact (h0.trans (steps_ifCondition g i none none s0)).trans (steps_bodyStmts g resTy tl rc _)
-    | loop b => exact (h0.trans (steps_loopStmt g b s0)).trans (steps_bodyStmts g resTy tl rc _)
+    | loop b => exact (h0.trans (steps_loopWrap _ (steps_loopBody g b) s0)).trans (steps_bodyStmts g resTy tl rc _)
     | expr e =>
       dsimp only
       have h1 := h0.trans (esteps_fnReturn g resTy e rc s0).toSteps
@@ -358,6 +359,9 @@ theorem steps_bodyStmts (g : Globals) (resTy : Ty) : ∀ (l : List BodyStmt) (rc
       generalize fnReturn g resTy e rc s0 = q at h1
       obtain ⟨s1, r⟩ := q
       exact h1.trans (steps_bodyStmts g resTy tl r s1)
+
+theorem steps_loopStmt (g : Globals) (body : List LoopStmt) (s : St) : Steps s (loopStmt g body s) :=
+  steps_loopWrap _ (steps_loopBody g body) s
 
 /-- the analysis of a whole function body is a chain of primitive steps from the initial state -/
 theorem steps_functionBody (g : Globals) (f : FnDecl) : Steps St.init (functionBody g f) := by
